@@ -378,6 +378,26 @@ def run(ck):
     # chain was copied successfully (strong guarantee, rule shared with C10)
     from . import C10
     C10.check_strong(ck, prog)
+    # "a full flush ends the Block and encoding continues normally": every Block Header is written from size fields that
+    # were reset for that Block (rule shared with C02)
+    from . import C02
+    C02.check_blkopt(ck, prog)
+    # "changing the filter chain between Blocks takes effect": when the new chain is shorter, the coder that used to follow
+    # is ended -- lzma_next_filter_init() runs the lzma_next_coder_init() step (which ends a coder of another kind and
+    # records the new init function) for the chain terminator as well
+    nf = prog.fn("lzma_next_filter_init", "common.c")
+    ck.saw_function(nf)
+    ck.rule("C12-CHAINEND", "lzma_next_filter_init(): every return passes the lzma_next_coder_init() step")
+
+    def via(bb, ii, ee):
+        return any(ex.strip(l) is not None and ex.strip(l).get("k") == "mem" and ex.strip(l)["f"] == "init" and
+                   (ex.strip(l).get("rec") or "").startswith("lzma_next_coder") for (l, r, op, nd) in ex.writes(ee))
+    okc, pathc = cfg.must_pass(nf, [nf.entry], [nf.exit], via)
+    ck.ob("C12-CHAINEND", "lzma_next_filter_init", okc, common.where(nf),
+          "lzma_next_filter_init: next->init is (re)recorded, and a coder of another kind ended, on every path" if okc else
+          "lzma_next_filter_init() can return (lines %s) without the lzma_next_coder_init() step: with a chain that became "
+          "shorter the coder that used to follow stays attached and keeps filtering, while the Block Header lists only the "
+          "new chain" % cfg.path_lines(nf, pathc), key="CHAINEND:lzma_next_filter_init")
     # the threaded encoder reports a full flush complete only when the output queue is empty (rule shared with C08)
     from . import C08
     ck.rule("C12-MTFLUSH", "threaded encoder: LZMA_FULL_FLUSH / LZMA_FINISH complete only with an empty output queue")
